@@ -147,12 +147,18 @@ fn be32(b: &[u8], at: usize) -> Option<u32> {
 
 /// Walk one header structure starting at `start`.
 pub fn walk_header(bytes: &[u8], start: usize) -> Result<RawHeader, String> {
+    walk_header_opt(bytes, start, false)
+}
+
+/// `lenient` skips the magic/version checks (used to locate segments of inputs that a parser
+/// accepted although they are not valid)
+pub fn walk_header_opt(bytes: &[u8], start: usize, lenient: bool) -> Result<RawHeader, String> {
     let intro = bytes.get(start..start + 16).ok_or("intro truncated")?;
-    if intro[0..3] != HDR_MAGIC {
+    if intro[0..3] != HDR_MAGIC && !lenient {
         return Err(format!("bad header magic {:02x?}", &intro[0..3]));
     }
     let version = intro[3];
-    if version != 1 {
+    if version != 1 && !lenient {
         return Err(format!("bad header version {version}"));
     }
     let mut reserved = [0u8; 4];
@@ -182,18 +188,22 @@ pub fn walk_header(bytes: &[u8], start: usize) -> Result<RawHeader, String> {
 
 /// Walk a whole package: lead, signature header (+pad to 8), main header, payload.
 pub fn walk_package(bytes: &[u8]) -> Result<RawPackage, String> {
+    walk_package_opt(bytes, false)
+}
+
+pub fn walk_package_opt(bytes: &[u8], lenient: bool) -> Result<RawPackage, String> {
     if bytes.len() < LEAD_LEN {
         return Err("lead truncated".into());
     }
-    if bytes[0..4] != LEAD_MAGIC {
+    if bytes[0..4] != LEAD_MAGIC && !lenient {
         return Err("bad lead magic".into());
     }
-    let sig = walk_header(bytes, LEAD_LEN)?;
+    let sig = walk_header_opt(bytes, LEAD_LEN, lenient)?;
     let sig_pad = (8 - (sig.dl as usize % 8)) % 8;
     if sig.end + sig_pad > bytes.len() {
         return Err("signature padding truncated".into());
     }
-    let hdr = walk_header(bytes, sig.end + sig_pad)?;
+    let hdr = walk_header_opt(bytes, sig.end + sig_pad, lenient)?;
     let payload_start = hdr.end;
     Ok(RawPackage { sig, sig_pad, hdr, payload_start, total_len: bytes.len() })
 }
@@ -478,4 +488,105 @@ pub mod tag {
     pub const POSTUNTRANSPROG: u32 = 5106;
     pub const PREUNTRANSFLAGS: u32 = 5107;
     pub const POSTUNTRANSFLAGS: u32 = 5108;
+}
+
+// ---------------------------------------------------------------------------------------------
+// decoded views used by several oracles
+
+impl RawHeader {
+    /// decode the first entry with this tag
+    pub fn get(&self, bytes: &[u8], tag: u32) -> Option<Result<Val, String>> {
+        self.find(tag).map(|e| decode_entry(self.store(bytes), e))
+    }
+    pub fn get_strs(&self, bytes: &[u8], tag: u32) -> Option<Vec<Vec<u8>>> {
+        match self.get(bytes, tag)? {
+            Ok(Val::StrArray(v)) | Ok(Val::I18n(v)) => Some(v),
+            Ok(Val::Str(s)) => Some(vec![s]),
+            _ => None,
+        }
+    }
+    pub fn get_str(&self, bytes: &[u8], tag: u32) -> Option<Vec<u8>> {
+        match self.get(bytes, tag)? {
+            Ok(Val::Str(s)) => Some(s),
+            Ok(Val::I18n(mut v)) | Ok(Val::StrArray(mut v)) if !v.is_empty() => Some(v.remove(0)),
+            _ => None,
+        }
+    }
+    pub fn get_u32s(&self, bytes: &[u8], tag: u32) -> Option<Vec<u32>> {
+        match self.get(bytes, tag)? {
+            Ok(Val::Int32(v)) => Some(v),
+            _ => None,
+        }
+    }
+    pub fn get_u16s(&self, bytes: &[u8], tag: u32) -> Option<Vec<u16>> {
+        match self.get(bytes, tag)? {
+            Ok(Val::Int16(v)) => Some(v),
+            _ => None,
+        }
+    }
+    pub fn get_u64s(&self, bytes: &[u8], tag: u32) -> Option<Vec<u64>> {
+        match self.get(bytes, tag)? {
+            Ok(Val::Int64(v)) => Some(v),
+            _ => None,
+        }
+    }
+}
+
+/// The file list of a main header as an independent decoder sees it.
+#[derive(Clone, Debug, Default)]
+pub struct FileList {
+    pub paths: Vec<Vec<u8>>,
+    pub sizes: Vec<u64>,
+    pub modes: Vec<u16>,
+    pub flags: Vec<u32>,
+    pub mtimes: Vec<u32>,
+    pub digests: Vec<Vec<u8>>,
+    pub linktos: Vec<Vec<u8>>,
+    pub users: Vec<Vec<u8>>,
+    pub groups: Vec<Vec<u8>>,
+    pub digest_algo: Option<u32>,
+}
+
+pub fn decode_files(bytes: &[u8], h: &RawHeader) -> Result<FileList, String> {
+    let Some(base) = h.get_strs(bytes, tag::BASENAMES) else { return Ok(FileList::default()) };
+    let dirs = h.get_strs(bytes, tag::DIRNAMES).ok_or("DIRNAMES missing")?;
+    let idx = h.get_u32s(bytes, tag::DIRINDEXES).ok_or("DIRINDEXES missing")?;
+    if idx.len() != base.len() {
+        return Err("DIRINDEXES/BASENAMES length mismatch".into());
+    }
+    let mut paths = Vec::new();
+    for (b, i) in base.iter().zip(&idx) {
+        let d = dirs.get(*i as usize).ok_or("dirindex out of range")?;
+        let mut p = d.clone();
+        p.extend_from_slice(b);
+        paths.push(p);
+    }
+    let sizes = match h.get_u64s(bytes, tag::LONGFILESIZES) {
+        Some(v) => v,
+        None => h.get_u32s(bytes, tag::FILESIZES).ok_or("FILESIZES missing")?.into_iter().map(|x| x as u64).collect(),
+    };
+    Ok(FileList {
+        paths,
+        sizes,
+        modes: h.get_u16s(bytes, tag::FILEMODES).unwrap_or_default(),
+        flags: h.get_u32s(bytes, tag::FILEFLAGS).unwrap_or_default(),
+        mtimes: h.get_u32s(bytes, tag::FILEMTIMES).unwrap_or_default(),
+        digests: h.get_strs(bytes, tag::FILEDIGESTS).unwrap_or_default(),
+        linktos: h.get_strs(bytes, tag::FILELINKTOS).unwrap_or_default(),
+        users: h.get_strs(bytes, tag::FILEUSERNAME).unwrap_or_default(),
+        groups: h.get_strs(bytes, tag::FILEGROUPNAME).unwrap_or_default(),
+        digest_algo: h.get_u32s(bytes, tag::FILEDIGESTALGO).and_then(|v| v.first().copied()),
+    })
+}
+
+/// collapse repeated slashes (used where a check must stay independent of another property's defect)
+pub fn collapse_slashes(p: &[u8]) -> Vec<u8> {
+    let mut out = Vec::with_capacity(p.len());
+    for b in p {
+        if *b == b'/' && out.last() == Some(&b'/') {
+            continue;
+        }
+        out.push(*b);
+    }
+    out
 }
